@@ -34,7 +34,8 @@ def stmt(kind, i, v):
     if kind == "CopyDecay":
         return ["CopyDecay", f"Cp{ni}", ["A0", "B+", "B+"][i]]
     if kind == "CDecay":
-        return ["CDecay", ["anti-Zq", "Zr-", "anti-Zq"][i] if v else ["anti-Zq", "Zr-", "Zs+"][i]]
+        # v=2: names that also have a Decay block of their own (A0, B+): the statement is still reported
+        return ["CDecay", [["anti-Zq", "Zr-", "Zs+"], ["anti-Zq", "Zr-", "anti-Zq"], ["A0", "Zr-", "B+"]][v][i]]
     if kind == "Particle":
         name = ["rho0", "MyRho", "rho0"][i]
         # statements 0 and 2 name the same particle: width absent/absent, given/absent (v=1), absent/given (v=2)
